@@ -406,17 +406,26 @@ func runInBubble(sc *Scenario, out *RunOut, trace bool) {
 
 	defer func() {
 		if r := recover(); r != nil {
-			buf := make([]byte, 2048)
+			buf := make([]byte, 4096)
 			buf = buf[:runtime.Stack(buf, false)]
-			out.Internal = fmt.Sprintf("harness panic: %v\n%s", r, buf)
+
+			if fr := libraryFrame(string(buf)); fr != "" && !zs.IsKilled(r) {
+				// the panic was raised inside the library (called by the harness's root task with valid
+				// arguments): a finding about the library, not about the harness
+				out.violate(sc.Prop+".PANIC", "library panicked in "+fr+": "+stripDigits(fmt.Sprint(r)), "the library panicked in %s, called by the harness's root task: %v", fr, r)
+			} else {
+				out.Internal = fmt.Sprintf("harness panic: %v\n%s", r, buf)
+			}
 		}
 
-		for _, f := range e.cleanup {
+		for _, f := range append(e.cleanup, liveBackends...) {
 			func() {
 				defer func() { _ = recover() }()
 				f()
 			}()
 		}
+
+		liveBackends = nil
 
 		if s != nil {
 			if leaked := s.Teardown(); leaked > 0 && out.Internal == "" {
@@ -543,3 +552,47 @@ func jsonStr(v interface{}) string {
 }
 
 func dur(ns int64) time.Duration { return time.Duration(ns) }
+
+// libraryFrame returns the first function of the library proper (not the simulator runtime copied into its tree)
+// in a stack dump whose panic was raised there, i.e. that appears before any harness frame other than the deferred
+// recover itself.
+func libraryFrame(stack string) string {
+	lines := strings.Split(stack, "\n")
+	seenPanic := false
+
+	for _, ln := range lines {
+		ln = strings.TrimSpace(ln)
+
+		if strings.HasPrefix(ln, "panic(") {
+			seenPanic = true
+
+			continue
+		}
+
+		if !seenPanic || ln == "" || strings.HasPrefix(ln, "/") {
+			continue
+		}
+
+		switch {
+		case strings.HasPrefix(ln, "runtime.") || strings.HasPrefix(ln, "internal/") || strings.HasPrefix(ln, "sync") || strings.HasPrefix(ln, "reflect.") || strings.HasPrefix(ln, "encoding/"):
+			continue
+		case strings.HasPrefix(ln, "github.com/bool64/cache/zzverifsim."):
+			continue
+		case strings.HasPrefix(ln, "github.com/bool64/cache."):
+			if i := strings.Index(ln, "("); i > 0 {
+				// keep the function name without its argument list
+				for j := len(ln) - 1; j > 0; j-- {
+					if ln[j] == '(' {
+						return strings.TrimPrefix(ln[:j], "github.com/bool64/cache.")
+					}
+				}
+			}
+
+			return ln
+		default:
+			return "" // a harness (or other) frame comes first: not the library's panic
+		}
+	}
+
+	return ""
+}
